@@ -511,3 +511,7 @@ Proof. destruct b; vm_compute; intros H; try reflexivity; discriminate H. Qed.
 
 Lemma backend_pi_fortran_before_fix : fixed_fortran_pi = false -> backend_pi BFortran <> pi_f64.
 Proof. vm_compute. intros H E. first [discriminate H | discriminate E]. Qed.
+
+(* since fix D108 (switch fixed_fortran_pi = true): no guard needed *)
+Lemma backend_pi_full b : backend_pi b = pi_f64.
+Proof. destruct b; vm_compute; reflexivity. Qed.
